@@ -15,7 +15,8 @@ COMMON_NOTE = ("Trusted: Lean 4.33 kernel (axioms of every property theorem audi
 
 _ST = (" Source tie (DESIGN.md section 16): the CURRENT text of {f} in /repo is translated into Lean by checks/pygen.py on every run and "
        "the kernel re-checks {t}: the translated definition equals the model's for all inputs (trusted: the translator, Mathlib's Int.land "
-       "as Python's `&`, totalised list indexing).")
+       "as Python's `&`, totalised list indexing). These are auxiliary obligations: a broken one triggers the failing-input search; alone - with every "
+       "property theorem and the behavioural correspondence intact and no failing input found - it is reported as SOURCE-TIE-UNPROVED, not as a violation.")
 SRC_TIE = {
     "C03": _ST.format(f="typeutils._to_slot_size", t="XoGen.src_to_slot_size"),
     "C05": _ST.format(f="typeutils._to_slot_size, array.iter_index", t="XoGen.src_to_slot_size, src_slot_least, src_iter_index"),
